@@ -907,6 +907,18 @@ func (e *Env) call(x *ECall) *CV {
 			r = a.V.S
 		}
 		return cvBool(Ge(r, e.oldNext))
+	case "allocated":
+		// allocated(x): the object x refers to exists in the current state (always true of
+		// any reference a program can hold; stated explicitly where a quantified load hides it)
+		a := arg(0)
+		if a.K != CVal || e.st == nil || e.st.Next == nil {
+			efail("allocated() needs a reference value")
+		}
+		r := a.V.Ref
+		if a.V.K == VMap {
+			r = a.V.S
+		}
+		return cvBool(Lt(r, e.st.Next))
 	case "unique":
 		// unique(result): allocated during the call and referenced by nothing else
 		a := arg(0)
